@@ -2,6 +2,7 @@ package main
 
 import (
 	"fmt"
+	"regexp"
 	"go/ast"
 	"go/constant"
 	"go/token"
@@ -100,6 +101,11 @@ type Enc struct {
 	inContractEval bool
 	mathInts    bool // mode math: integers are unbounded mathematical integers (no range facts assumed)
 	rc          *ReplayCtx
+	// explicit quantifier instantiation (see instancesFor)
+	sawHypAll    bool
+	noSkolem     bool
+	skolemBounds map[string][2]string
+	insts        []instantiator
 }
 
 type dbgRef struct {
@@ -1045,9 +1051,101 @@ func (e *Enc) oblige(kind, anchor string, pos token.Pos, reach, cond, descr stri
 		p := e.P.Prog.Fset.Position(pos)
 		o.Pos = fmt.Sprintf("%s:%d", relPath(p.Filename, e.P.Dir), p.Line)
 	}
-	o.SMT = e.query(e.curBlock, and(reach, not(cond)))
+	o.SMT = e.query(e.curBlock, and(reach, e.instancesFor(cond), not(cond)))
 	o.RC = e.replayCtx()
 	e.obls = append(e.obls, o)
+}
+
+// instantiator re-evaluates one assumed clause with its outermost universals instantiated at an index term.
+type instantiator struct {
+	block int
+	f     func(t string) string
+}
+
+var skolemRe = regexp.MustCompile(`sk![0-9]+`)
+
+// assume asserts a contract clause as a hypothesis at the given block and, when the clause contains an outermost
+// universal quantifier, registers it for explicit instantiation.
+func (e *Enc) assume(block int, guard string, x ast.Expr, mkEnv func() *Env) string {
+	e.sawHypAll = false
+	t := e.evalHyp(x, mkEnv())
+	e.emitAssert(block, implies(guard, t))
+	if e.sawHypAll && e.pass == 2 {
+		e.insts = append(e.insts, instantiator{block: block, f: func(at string) string {
+			env := mkEnv()
+			n := *env
+			n.pol = -1
+			n.instAt = at
+			v := e.evalExpr(x, &n)
+			if v.Bad || len(v.L) != 1 {
+				return "true"
+			}
+			return implies(guard, v.L[0])
+		}})
+	}
+	return t
+}
+
+// instancesFor returns ground instances of the assumed universally quantified clauses that are in scope of the current
+// block, at the skolem constants of the goal and at the bounds of its quantifiers. They are consequences of assertions
+// that the query contains anyway, so adding them is sound; they spare the solver the arithmetic-heavy triggers.
+func (e *Enc) instancesFor(goal string) string {
+	if len(e.insts) == 0 {
+		return "true"
+	}
+	sks := map[string]bool{}
+	for _, s := range skolemRe.FindAllString(goal, -1) {
+		sks[s] = true
+	}
+	if len(sks) == 0 {
+		return "true"
+	}
+	var terms []string
+	seen := map[string]bool{}
+	add := func(t string) {
+		if !seen[t] {
+			seen[t] = true
+			terms = append(terms, t)
+		}
+	}
+	var names []string
+	for s := range sks {
+		names = append(names, s)
+	}
+	sort.Strings(names)
+	m := e.M
+	for _, s := range names {
+		add(s)
+		add(m.isub(s, m.ilit(1)))
+		add(m.iadd(s, m.ilit(1)))
+		if b, ok := e.skolemBounds[s]; ok {
+			add(b[0])
+			add(m.isub(b[1], m.ilit(1)))
+		}
+	}
+	add("@first")
+	add("@last")
+	anc := e.ancestors(e.curBlock)
+	saveSub, saveHead, saveSt := e.inlineSubst, e.inlineHead, e.inlineState
+	saveNo := e.noSkolem
+	e.noSkolem = true
+	var out []string
+	for _, in := range e.insts {
+		if in.block >= 0 && !anc[in.block] {
+			continue
+		}
+		for _, t := range terms {
+			if len(out) >= 400 {
+				break
+			}
+			if r := in.f(t); r != "true" {
+				out = append(out, r)
+			}
+		}
+	}
+	e.noSkolem = saveNo
+	e.inlineSubst, e.inlineHead, e.inlineState = saveSub, saveHead, saveSt
+	return and(out...)
 }
 
 // cover records a reachability goal: the context ∧ reach must be satisfiable.
